@@ -25,6 +25,7 @@ from harness.common.num import q, fbits, unfbits, unq
 
 PID = "C11"
 LEVEL = "translation_validation"
+EXTRA_PROP_FILES = ["C11b"]  # algebraic derivative semantics, signature rejection, inlining of user functions
 REQUIRED_THEOREMS = [
     "eval_compositional", "eval_subst", "alias_replacement_sound", "prepare_sound",
     "signature_order_irrelevant_for_named_env", "consts_as_partial_application", "exprFunction_spec",
